@@ -596,6 +596,11 @@ class Parser():
             label_name = label.value[2:-2]
             return StatLabel(label_name, start=pos, end=self._pos)
 
+        if self._accept(lexer.TokKeyword(b'break')) is not None:
+            # (As of Lua 5.2, break need not be the last statement of its
+            # block: "break ::continue::" is valid.)
+            return StatBreak(start=pos, end=self._pos)
+
         self._pos = pos
         return None
 
